@@ -105,7 +105,19 @@ def _r1(ctx: Context, tree: str, N: Names) -> None:
                    f"{kind} at {witness(bad)} leaves the request in the pool's queue forever (the pool keeps counting it)", witness(bad))
         # normal return hands the entry to the byte stream
         rets = [n for n in cfg.nodes if n.kind == "return" and n.id in reach]
-        ok = bool(rets) and all("PoolByteStream(" in norm(n.ast) and "pool_request=pool_request" in norm(n.ast) for n in rets)
+        def hands_over(n: Node) -> bool:
+            txt = norm(n.ast)
+            if "PoolByteStream(" in txt and "pool_request=pool_request" in txt:
+                return True
+            # the stream object built in a temporary first
+            for c in ast.walk(n.ast):
+                if isinstance(c, ast.Call) and norm(c.func) == "Response":
+                    for k in c.keywords:
+                        if k.arg == "content":
+                            alts = [norm(a) for a in ctx.prov.expand(k.value, f, n.ast, depth=1)]
+                            return bool(alts) and all("PoolByteStream(" in a and "pool_request=pool_request" in a for a in alts)
+            return False
+        ok = bool(rets) and all(hands_over(n) for n in rets)
         rep.ob("C05.R1", fkey(tree, f, "ownership-transfer"), ok, where(f, rets[0].ast if rets else a.ast),
                "normal return wraps the response in PoolByteStream(pool_request=pool_request): its aclose owns the removal")
     # PoolByteStream.aclose
